@@ -8,7 +8,7 @@ from props import c01, c10
 ID = "C14"
 LEVEL = "proof"
 THEOREMS = ["C14_flat_ignores_dummy", "C14_emitted_items_ignore_dummy", "C14_emitted_items_nonempty", "C14_no_empty_lines",
-            "C14_dummy_denotes_nothing", "C14_strands_reread", "C14_designer_accepts", "C14_finisher_accepts", "C14_system_designer_accepts", "C14_finisher_accepts_unconditional", "C14_system_finisher_accepts", "C14_system_finisher_accepts_unconditional"]
+            "C14_dummy_denotes_nothing", "C14_strands_reread", "C14_designer_accepts", "C14_finisher_accepts", "C14_system_designer_accepts", "C14_finisher_accepts_unconditional", "C14_system_finisher_accepts", "C14_system_finisher_accepts_unconditional", "C14_fixed_system_designer_accepts"]
 TRUSTED = c01.TRUSTED + ["harness filler producing a nucleotide string that satisfies the arrays (for the finisher leg)"]
 ASSUMPTIONS = c01.ASSUMPTIONS
 
@@ -176,6 +176,13 @@ def run(tier, seed, build):
             prog["body"].append(["strand", False, "zwild", [["nuc", [["?", rng.choice("NSW")]]]], ["Some", L]])
             prog["body"].append(["struct", 1, "zwildX", ["zwild"], False, ["ext", [[L, "."]]]])
         p2, how, touched = insert_zeros(rng, prog)
+        if i % 5 == 4:      # a super-sequence whose only sized member is a wildcard region, between zero-length members (both programs)
+            L = rng.choice([3, 5])
+            extra = [["seq", "zq", [["nuc", [[0, "N"]]]], None],
+                     ["seq", "zwsup", [["ref", "zq", False], ["nuc", [["?", rng.choice("NS")]]], ["ref", "zq", True]], ["Some", L]],
+                     ["strand", False, "zwsupS", [["ref", "zwsup", False]], ["Some", L]],
+                     ["struct", 1, "zwsupX", ["zwsupS"], False, ["ext", [[L, "."]]]]]
+            prog["body"] += copy.deepcopy(extra); p2["body"] += copy.deepcopy(extra); how.append("wildcard-between-zeros")
         cases.append({"prog": prog, "prog2": p2, "how": how, "touched": touched,
                       "base": pepper.comp_text(rng, prog), "zero": pepper.comp_text(rng, p2), "seed": rng.randrange(10**9)})
         cases[-1]["fixed"] = fixed_for(rng, prog) if i % 3 == 1 else None
